@@ -122,7 +122,7 @@ def r_resolver(root):
     # ------------------------------------------------------------------ C07.e builtins / unknown object
     cls = HS({".__name__": "Cls"})
     for what, builtins, want in (("no object, no builtins", None, "error"), ("no object, a builtin of that name that conforms", "conforming", "builtin"), ("no object, a builtin of that name of another type", "other", "error"), ("no object, builtins without that name", "missing", "error")):
-        b_obj = HS({".kind": "builtin", ".conforms_to": cls if builtins == "conforming" else HS({})})
+        b_obj = HS({".kind": "builtin", ".conforms_to": cls if builtins == "conforming" else HS({}), ".__complete__": "all"})
         w = World(builtins=None if builtins is None else ({"x": b_obj} if builtins != "missing" else {"y": b_obj}))
         o = w.obj(one=None); a_one = w.attr("one", False)
         w.parser["._crossrefs"] = [(o, a_one, w.ref("x", 42, cls))]
@@ -134,7 +134,7 @@ def r_resolver(root):
         rep("C07", "C07.e", what, ok, "a reference to 'x' with %s: the round %s; documented: %s" % (what, ("stores %s" % ("the builtin" if o[".one"] is b_obj else o[".one"])) if k == "ret" else "raises %s%s" % (v.cls, "" if not isinstance(getattr(v, "value", None), dict) else " (type %r, line %s, file %r)" % (v.value.get(".err_type"), v.value.get(".line"), v.value.get(".filename"))), "the builtin is used" if want == "builtin" else "a TextXSemanticError of type 'Unknown object' at the reference (line/col of offset 42 by the model's parser, the model's file)"), witness="reference to a name that only the builtins know")
     # ------------------------------------------------------------------ C34.h tool support bookkeeping
     for tools in (True, False):
-        b_obj = HS({".kind": "builtin", ".conforms_to": cls})
+        b_obj = HS({".kind": "builtin", ".conforms_to": cls, ".__complete__": "all"})
         w = World(tools=tools, builtins={"b": b_obj})
         o = w.obj(one=None, two=None, refs=[]); tg = w.target("t", cls, start=200); tg2 = w.target("u", cls, start=300, model=w.other_model)
         w.parser["._crossrefs"] = [(o, w.attr("one", False), w.ref("t", 7, cls)), (o, w.attr("two", False), w.ref("b", 17, cls)), (o, w.attr("refs", True), w.ref("u", 27, cls))]
